@@ -357,10 +357,20 @@ def gen_c02_decls(rng, tier):
         n += 1
     for ty in ("f32", "f64"):
         is64 = FLOAT_TYPES[ty]
-        texts = ["-5.5", "0.0", "64.0", "1e3", "2.5E-3", "1_000.5", "7", "-0.0", "100", "1.4142135623730951", "0.30000000000000004", "3.1415927", "16777216.0"]
+        texts = ["-5.5", "0.0", "64.0", "1e3", "2.5E-3", "1_000.5", "7", "-0.0", "100", "1.4142135623730951", "0.30000000000000004", "3.1415927", "16777216.0",
+                 # a hair beside an f32 midpoint: the literal must be rounded once, at the width of the inner type
+                 "1.0000000596046448", "16777217.000000001", "-1.00000017881393432", "0.10000000149011612"]
         for si, style in enumerate(["lit", "const", "negconst", "parenconst", "parenlit"]):
             for ki, kind in enumerate(LOWER + UPPER):
                 t = texts[(si * 2 + ki) % len(texts)]
+                env = []
+                e = spell_float(ty, t, style, env, "b")
+                d = b.add(ty, [block("validate", [[tid(kind), EQ, tx(e)]]), D(["Debug"])], "spelling", env=env)
+                d.rule = (kind, fbits(t, is64))
+                d.tags.add("spelling")
+        for mi, t in enumerate(texts[-4:]):
+            for si, style in enumerate(["lit", "parenlit"]):
+                kind = (LOWER + UPPER)[(mi + si * 2) % 4]
                 env = []
                 e = spell_float(ty, t, style, env, "b")
                 d = b.add(ty, [block("validate", [[tid(kind), EQ, tx(e)]]), D(["Debug"])], "spelling", env=env)
@@ -434,6 +444,28 @@ def gen_c02_decls(rng, tier):
                        ([RXL, MN], [("regex", ("s", "a1")), ("len_char_min", ("s", "a"))]),
                        ([MN, RXL, NE], [("regex", ("s", "ab ")), ("len_char_min", ("s", "a")), ("not_empty", ("s", ""))])):
         presence("String", items, wit)
+    # written order = checked order: an input that violates two written rules is reported with the one
+    # written first (expected variant fixed here by hand, not by the model)
+    def ordered(inner, items, cases, env=None):
+        d = presence(inner, items, [], env)
+        d.order_witnesses = cases
+        return d
+    ordered("String", [RXL, MN], [(("s", "A"), "regex"), (("s", "a"), "len_char_min"), (("s", ""), "regex")])
+    ordered("String", [MN, RXL], [(("s", "A"), "len_char_min"), (("s", "AB"), "regex"), (("s", ""), "len_char_min")])
+    ordered("String", [RXL, MX], [(("s", "ABCDEF"), "regex"), (("s", "abcdef"), "len_char_max")])
+    ordered("String", [MX, RXL], [(("s", "ABCDEF"), "len_char_max"), (("s", "AB"), "regex")])
+    ordered("String", [RXL, NE], [(("s", ""), "regex")])
+    ordered("String", [NE, MX, RXL], [(("s", ""), "not_empty"), (("s", "ABCDEF"), "len_char_max")])
+    ordered("String", [[tid("regex"), EQ, tpath("RE0")], MN], [(("s", "A"), "regex"), (("s", ""), "regex")])
+    for ty in ("f32", "f64"):
+        is64 = FLOAT_TYPES[ty]
+        pinf = 0x7FF0000000000000 if is64 else 0x7F800000
+        ninf = pinf | (1 << (63 if is64 else 31))
+        FIN = [tid("finite")]
+        ordered(ty, [[tid("less_or_equal"), EQ, lf("7.5")], FIN], [(("f", pinf), "less_or_equal"), (("f", ninf), "finite")])
+        ordered(ty, [FIN, [tid("less_or_equal"), EQ, lf("7.5")]], [(("f", pinf), "finite"), (("f", fbits("8.0", is64)), "less_or_equal")])
+        ordered(ty, [[tid("greater"), EQ, lf("-2.5")], FIN, [tid("less"), EQ, lf("7.5")]],
+                [(("f", ninf), "greater"), (("f", pinf), "finite"), (("f", fbits("7.5", is64)), "less")])
     # multi-byte witnesses: the limits count characters, not bytes
     ZH, EM = "\u0436", "\U0001F600"
     for items, wit in (([MN, MX], [("len_char_min", ("s", ZH)), ("len_char_min", ("s", EM)), ("len_char_max", ("s", ZH * 5)), ("len_char_max", ("s", "a" + EM * 4))]),
